@@ -141,6 +141,17 @@ def check(run):
             specs2 = [s_.copy(sph=bool(k % 8 == 3)) for s_ in specs2]
         t2 = random_transform(rng, sum(s_.size for s_ in specs2)) if k % 3 == 2 else None
         one_case(run, specs2, points_for(rng, specs2, 3), o, dt, t2, via_class=True)
+    # diffuse shells evaluated 20-35 bohr from their centre (along one axis and in general direction): values of 1e-5..1e-9 that
+    # must still be exact to rounding
+    for k, (o, dt) in enumerate([((0, 0, 0), "general"), ((1, 0, 0), "general"), ((0, 1, 1), "direct"), ((2, 0, 0), "general")] if quick else
+                                 [(o_, dt_) for o_ in ((0, 0, 0), (1, 0, 0), (0, 1, 1), (2, 0, 0), (0, 0, 3)) for dt_ in ("general", "direct") if max(o_) <= 2 or dt_ == "general"]):
+        l = k % 4
+        sh = ShellSpec(l, [core.snap(rng.uniform(-1, 1), 8) for _ in range(3)], [0.02 + 0.01 * (k % 3), 0.09], [[1.0], [0.4]], sph=bool(k % 2))
+        c = np.array(sh.center)
+        far = [c + np.array([27.0 + k, 0.3, -0.2]), c + np.array([0.1, -(28.5 + k % 3), 0.4]), c + np.array([-0.2, 0.1, 30.0 + k % 4]),
+               c + np.array([17.0, -16.0, 18.0]), c + np.array([24.0, 0.0, 0.0])]
+        one_case(run, [sh], np.array(far), o, dt)
+        run.count("diffuse shell 24-35 bohr from its centre")
     representation_cases(run)
     from checks.common import sp_family, structured_transforms
     for k, ls in enumerate([(0, 1), (0, 2), (1, 2), (0, 1, 2)]):
